@@ -209,6 +209,17 @@ func enumerate(e *common.Enum) {
 		fam := fam
 		e.Do("race/"+fam, func(c *common.Ctx) { raceCase(c, fam, e.Thorough()) })
 	}
+	// first use, really: the controlled executions re-arm the sync.Once values between schedules but cannot un-build
+	// what an earlier execution built, so "who gets there first" is also enumerated with one new process per history:
+	// every ordered pair (and every triple a,a,b) of first-use ops; the last op must answer what it answers alone.
+	fu := harness.FirstUseOps()
+	for _, b := range fu {
+		for _, a := range fu {
+			a, b := a, b
+			e.Do("firstuse-order|"+a+"|"+b, func(c *common.Ctx) { firstUseCase(c, []string{a, b}) })
+			e.Do("firstuse-order|"+a+"|"+a+"|"+b, func(c *common.Ctx) { firstUseCase(c, []string{a, a, b}) })
+		}
+	}
 }
 
 // ---------------------------------------------------------------- free-running race pass
@@ -260,6 +271,38 @@ func raceSig(report string) string {
 		pkgs = pkgs[:1]
 	}
 	return "race:" + strings.Join(pkgs, "|")
+}
+
+func firstUseRun(ops []string) (string, error) {
+	cmd := exec.Command(common.Work("bin", "c10race"), append([]string{"--firstuse"}, ops...)...)
+	cmd.Env = append(os.Environ(), "GORACE=halt_on_error=0")
+	var out, errb bytes.Buffer
+	cmd.Stdout, cmd.Stderr = &out, &errb
+	if err := cmd.Run(); err != nil {
+		return "", fmt.Errorf("%v: %s", err, common.Trim(errb.String(), 400))
+	}
+	return out.String(), nil
+}
+
+func firstUseCase(c *common.Ctx, ops []string) {
+	c.Input("new process: " + strings.Join(ops, " ; "))
+	last := ops[len(ops)-1]
+	alone, err := firstUseRun([]string{last})
+	if err != nil {
+		c.Fail("harness:firstuse-binary", err.Error())
+		return
+	}
+	got, err := firstUseRun(ops)
+	if err != nil {
+		c.Fail("harness:firstuse-binary", err.Error())
+		return
+	}
+	c.Count("processes", 2)
+	if got != alone {
+		c.Fail("first-use-order:"+last, fmt.Sprintf("in a new process %s answers\n%s\nafter %s, and\n%s\nas the first call", last, common.Trim(got, 400), strings.Join(ops[:len(ops)-1], " ; "), common.Trim(alone, 400)))
+	}
+	c.Outcome("firstuse-order")
+	c.NonTrivial()
 }
 
 func raceCase(c *common.Ctx, fam string, thorough bool) {
